@@ -1,5 +1,6 @@
 (** C33 — observing a simulation does not change it.  Property theorems only. *)
-From Akita Require Import Lib.Base Lib.AbsSim Lib.AbsSimProofs Lib.AbsSimRel C06.Model C06.Proofs C33.Model C33.Proofs.
+From Akita Require Import Lib.Base Lib.AbsSim Lib.AbsSimProofs Lib.AbsSimRel C06.Model C06.Proofs C06.EngineBridge C33.Model C33.Proofs C33.EngineBridge.
+From Akita Require Lib.Engine.
 Local Open Scope N_scope.
 
 (** Framework theorem: two simulations (any world/event types) whose handler
@@ -49,3 +50,46 @@ Example c33_nonvacuous :
   | None => False
   end.
 Proof. vm_compute. repeat split; try lia; discriminate. Qed.
+
+(** The framework theorem on the heap engine itself (Lib/Engine: the binary heaps of
+    eventqueue.go and the Run loop of serialengine.go, tied to the Go code by C01/C02):
+    two engines that represent related simulations — in particular two engines built
+    from NewSerialEngine by pointwise related Schedule calls — and whose handler programs
+    respect the relations handle pointwise related events in the same order, end the
+    same way, at the same time, in related handler states, and stay related. *)
+Theorem c33_heap_engine_invariant :
+  forall (W1 Ev1 W2 Ev2 : Type) (t1 : Ev1 -> N) (t2 : Ev2 -> N) (c1 : Ev1 -> bool) (c2 : Ev2 -> bool)
+         (H1 : W1 -> Ev1 -> W1 * list Ev1) (H2 : W2 -> Ev2 -> W2 * list Ev2)
+         (WR : W1 -> W2 -> Prop) (ER : Ev1 -> Ev2 -> Prop),
+  (forall a b, ER a b -> t1 a = t2 b) -> (forall a b, ER a b -> c1 a = c2 b) ->
+  (forall w1 w2 a b, WR w1 w2 -> ER a b ->
+     WR (fst (H1 w1 a)) (fst (H2 w2 b)) /\ Forall2 ER (snd (H1 w1 a)) (snd (H2 w2 b))) ->
+  forall n w1 en1 w2 en2, HRR W1 Ev1 W2 Ev2 t1 t2 WR ER w1 en1 w2 en2 ->
+  let r1 := Engine.run t1 c1 H1 n w1 en1 in
+  let r2 := Engine.run t2 c2 H2 n w2 en2 in
+  Engine.r_out r1 = Engine.r_out r2 /\
+  (Engine.r_out r1 <> Engine.Panicked ->
+     Forall2 ER (log_events Ev1 (Engine.r_log r1)) (log_events Ev2 (Engine.r_log r2)) /\
+     WR (Engine.r_hs r1) (Engine.r_hs r2) /\
+     Engine.e_now (Engine.r_en r1) = Engine.e_now (Engine.r_en r2) /\
+     HRR W1 Ev1 W2 Ev2 t1 t2 WR ER (Engine.r_hs r1) (Engine.r_en r1) (Engine.r_hs r2) (Engine.r_en r2)).
+Proof. exact heap_run_RR. Qed.
+Print Assumptions c33_heap_engine_invariant.
+
+Theorem c33_heap_engine_initial :
+  forall (W1 Ev1 W2 Ev2 : Type) (t1 : Ev1 -> N) (t2 : Ev2 -> N) (c1 : Ev1 -> bool) (c2 : Ev2 -> bool)
+         (H1 : W1 -> Ev1 -> W1 * list Ev1) (H2 : W2 -> Ev2 -> W2 * list Ev2)
+         (WR : W1 -> W2 -> Prop) (ER : Ev1 -> Ev2 -> Prop),
+  (forall a b, ER a b -> t1 a = t2 b) -> (forall a b, ER a b -> c1 a = c2 b) ->
+  forall w1 w2 es es', WR w1 w2 -> Forall2 ER es es' ->
+  match Engine.schedule_all t1 c1 Engine.new_engine es, Engine.schedule_all t2 c2 Engine.new_engine es' with
+  | (en1, _, true), (en2, _, true) => HRR W1 Ev1 W2 Ev2 t1 t2 WR ER w1 en1 w2 en2
+  | (_, _, false), (_, _, false) => True
+  | _, _ => False
+  end.
+Proof.
+  intros W1 Ev1 W2 Ev2 t1 t2 c1 c2 H1 H2 WR ER Ht Hc w1 w2 es es' Hw HF.
+  apply (HRR_schedule_all W1 Ev1 W2 Ev2 t1 t2 c1 c2 H1 H2 WR ER Ht Hc es es' HF).
+  apply HRR_new. exact Hw.
+Qed.
+Print Assumptions c33_heap_engine_initial.
